@@ -136,8 +136,8 @@ def run_engine(ctx: Ctx) -> dict:
         return json.loads(cf.read_text())
     t0 = time.time()
     insts = quick_instances() if ctx.quick else thorough_instances()
-    n_per = 120 if ctx.quick else 400
-    hashseeds = [0, 1] if ctx.quick else [0, 1, 2, 3, 4]
+    n_per = 120 if ctx.quick else 150
+    hashseeds = [0, 1] if ctx.quick else [0, 1, 2]
     mc_workers = 2
     res: dict = {"mc": [], "traces": [], "instances": [i.name for i in insts]}
     scratch = ctx.scratch / "cascade"
